@@ -110,6 +110,7 @@ type event struct {
 	name string // callee name
 	call *ast.CallExpr
 	args []aval
+	pos  token.Pos
 }
 
 type trace struct {
@@ -172,6 +173,7 @@ type evaluator struct {
 	budget  int
 	notes   map[string]bool // constructs outside the subset that were met
 	watch   map[string]bool // callee names to record as events
+	watchLit string         // a string constant whose evaluation is recorded as an event
 	readsIn map[ast.Node]bool
 }
 
@@ -246,6 +248,9 @@ func (ev *evaluator) evalExpr(e ast.Expr, st state, info *types.Info) []eres {
 		return []eres{{v: v, st: st}}
 	}
 	if tv, ok := info.Types[e]; ok && tv.Value != nil {
+		if ev.watchLit != "" && tv.Value.Kind() == constant.String && constant.StringVal(tv.Value) == ev.watchLit {
+			st.tr = &trace{ev: event{name: "lit:" + ev.watchLit, pos: e.Pos()}, prev: st.tr}
+		}
 		return []eres{{v: constVal(tv.Value), st: st}}
 	}
 	switch e := e.(type) {
@@ -539,7 +544,7 @@ func (ev *evaluator) applyCall(call *ast.CallExpr, recv aval, args []aval, st st
 		return []eres{{v: unknown, st: st}}
 	}
 	if ev.watch[fn.Name()] {
-		st.tr = &trace{ev: event{name: fn.Name(), call: call, args: args}, prev: st.tr}
+		st.tr = &trace{ev: event{name: fn.Name(), call: call, args: args, pos: call.Pos()}, prev: st.tr}
 	}
 	if v, ok := ev.h.prim(ev, fn, call, st); ok {
 		return []eres{{v: v, st: st}}
